@@ -160,6 +160,21 @@ def case_filter(B, cfg):
                 for t in range(n_t):
                     B.eq('sens[%d,%d,%d] = d score / d simulated' % (s, o, t),
                          sens[s][o][t], g[(s * n_obs + o) * n_t + t])
+    if cfg.get('then_n_sim'):
+        # the same object, next with another number of simulated individuals
+        n2 = cfg['then_n_sim']
+        X2 = _vars(B, 'z', n2, n_obs, n_t)
+        _assume(B, kind, M, X2)
+        v2 = f.compute_log_likelihood(ps.arr(B, X2))
+        ref2 = reference(B, kind, M, X2)
+        B.eq('same object, %d simulated individuals after %d: score = '
+             'documented log-likelihood' % (n2, n_sim), v2, ref2)
+        sc2, se2 = f.compute_sensitivities(ps.arr(B, X2))
+        B.eq('same object, %d simulated individuals after %d: S1 score'
+             % (n2, n_sim), sc2, ref2)
+        B.fact('same object, other number of simulated individuals: '
+               'sensitivity shape', np.shape(se2) == (n2, n_obs, n_t),
+               repr(np.shape(se2)))
     # permutation of measured individuals
     if n_ids > 1:
         Mp = M[1:] + M[:1]
@@ -383,6 +398,17 @@ def jobs(tier):
                 out.append(('filter', 'case_filter', dict(
                     kind=kind, n_ids=n_ids, n_obs=n_obs, n_times=n_t,
                     n_sim=n_sim), {'max_paths': 64}))
+    # one filter object used with two different numbers of simulated
+    # individuals, one after the other
+    for kind in FILTERS:
+        if kind == 'mixture':
+            seqs = [(4, 6)] if not q else []
+        else:
+            seqs = [(2, 3), (3, 2)]
+        for n1, n2 in seqs:
+            out.append(('filter', 'case_filter', dict(
+                kind=kind, n_ids=1, n_obs=1, n_times=1, n_sim=n1,
+                then_n_sim=n2), {'max_paths': 64}))
     for kind in FILTERS:
         n_sim = 4 if kind == 'mixture' else 2
         pats = [('pad', 1, 1, 1), ('pad', 2, 1, 2), ('ragged', 2, 1, 2),
@@ -439,7 +465,8 @@ BOUNDS = dict(
           'times 1..2 (parametric filters also 2x2x2; 1x1x3 for all time '
           'orders), simulated individuals '
           '2..3 (4 for the mixture; KDE with 3 simulated individuals only on '
-          'one cell); composed filters over 3 pairs with splits (1,1), (2,1) '
+          'one cell); one filter object evaluated with 2 then 3 and 3 then 2 '
+          'simulated individuals; composed filters over 3 pairs with splits (1,1), (2,1) '
           'and over 3-4 sub-filters (flat = nested), also with simulated '
           'measurements of an integer dtype; '
           'all time permutations; missing values: an all-missing extra '
